@@ -698,8 +698,10 @@ class InterpolatedPredictionStrategy(DefaultPredictionStrategy):
         ).root
         train_train_covar_inv_root = train_train_covar_inv_root.to_dense()
 
-        # New root factor
-        root = self._exact_predictive_covar_inv_quad_form_cache(train_train_covar_inv_root, self._last_test_train_covar)
+        # New root factor: K_UU W^T S, with the interpolation W of the training inputs.  It is taken from the train-train covariance
+        # (not from the test-train covariance of the call that happens to build this cache, whose training side carries the
+        # batch shape of that call's test inputs) so that the cache depends on the training data only.
+        root = self._exact_predictive_covar_inv_quad_form_cache(train_train_covar_inv_root, train_train_covar)
 
         # Precomputed factor
         if settings.fast_pred_samples.on():
